@@ -178,7 +178,8 @@ def run_kani_units(units, cfgs, repo, tier, work, prop=None):
             info.update(pinfo)
             timeout = max(cfgs[u].get("timeout_thorough" if tier == "thorough" else "timeout", 1500) for u in us)
             res, out, wall, timed_out, rc = kani.run(scratch, crate, hlist, extra_flags=flags, timeout=timeout,
-                                                     jobs=min(12, max(1, len(hlist))), log=os.path.join(work, "kani-%s.log" % crate))
+                                                     jobs=min(12, max(1, len(hlist))), log=os.path.join(work, "kani-%s.log" % crate),
+                                                     mem_gb=max(cfgs[u].get("mem_gb", 14) for u in us))
             info["cmd"] = "cargo kani -p %s %s --harness <each of %d>" % (crate, " ".join(flags), len(hlist))
             info["kani_wall_s"] = wall
             compile_failed = ("error: could not compile" in out or "error[E" in out) and not res
